@@ -587,7 +587,7 @@ class Runner:
                 if not any(json.dumps(x, sort_keys=True) in fails for x, _ in list(subterms(st, None))[1:]):
                     mt, mnv, (mtxt, mout) = st, snv, fails[k]
                     break
-            show = terms.show(terms.from_tla(mt))
+            show = "%s shape=%s" % (terms.show(terms.from_tla(mt)), shape(mt, p.table))
             g = (show, mtxt, mout)
             if g in self.groups:
                 self.groups[g][1].append((leg, p.table.name))
@@ -604,6 +604,33 @@ class Runner:
             sig = "term=%s text=%s => %s [legs=%s tables=%d first=%s]" % (
                 show, json.dumps(txt, ensure_ascii=False), outcome, ",".join(legs), len(tabs), tabs[0])
             self.rep.violation(sig, detail)
+
+
+def kind(t, tb, deep):
+    tag = t["t"]
+    if tag == "v":
+        return "var"
+    if tag == "a":
+        return "opatom" if ((t["n"], 1) in tb.spec or (t["n"], 2) in tb.spec) else "atom"
+    if tag in ("i", "big", "f"):
+        neg = int(t["i"]) < 0 if tag == "i" else t["n"].startswith("-") if tag == "big" else int(t["n"], 16) >> 63 == 1
+        return "neg" if neg else "num"
+    if tag == "s":
+        return "str"
+    if t["n"] == "." and len(t["a"]) == 2:
+        return "list"
+    nm = t["n"].replace(",", "comma").replace(" ", "_")
+    if deep:
+        return "c:%s/%d<%s>" % (nm, len(t["a"]), kind(t["a"][0], tb, False))
+    return "c:%s/%d" % (nm, len(t["a"]))
+
+
+def shape(t, tb):
+    """structural description of a failing term for the signature: principal functor and, per argument, its kind
+    (opatom = an atom that is an operator of the table; for a compound argument also the kind of ITS first argument)"""
+    if t["t"] == "c" and not (t["n"] == "." and len(t["a"]) == 2):
+        return "%s/%d(%s)" % (t["n"].replace(",", "comma").replace(" ", "_"), len(t["a"]), ",".join(kind(x, tb, True) for x in t["a"]))
+    return kind(t, tb, False)
 
 
 def subterms(t, nv):
